@@ -1204,11 +1204,11 @@ fn remove_client(plan: &Plan, c: usize) -> Plan {
     p
 }
 
-pub fn minimise(plan: &Plan, table: &ColdTable, class: &str, kind: &str, budget: usize) -> Plan {
+pub fn minimise(plan: &Plan, table: &mut ColdTable, class: &str, kind: &str, budget: usize) -> Plan {
     let mut cur = plan.clone();
     cur.schedule = None;
     let mut spent = 0usize;
-    let mut try_cand = |cand: Plan, cur: &mut Plan, spent: &mut usize| -> bool {
+    let try_cand = |cand: Plan, cur: &mut Plan, spent: &mut usize, table: &ColdTable| -> bool {
         if *spent >= budget {
             return false;
         }
@@ -1227,7 +1227,7 @@ pub fn minimise(plan: &Plan, table: &ColdTable, class: &str, kind: &str, budget:
     let mut c = 0;
     while c < cur.clients.len() && cur.clients.len() > 1 {
         let cand = remove_client(&cur, c);
-        if !try_cand(cand, &mut cur, &mut spent) {
+        if !try_cand(cand, &mut cur, &mut spent, table) {
             c += 1;
         }
     }
@@ -1236,7 +1236,7 @@ pub fn minimise(plan: &Plan, table: &ColdTable, class: &str, kind: &str, budget:
     while i < cur.faults.len() {
         let mut cand = cur.clone();
         cand.faults.remove(i);
-        if !try_cand(cand, &mut cur, &mut spent) {
+        if !try_cand(cand, &mut cur, &mut spent, table) {
             i += 1;
         }
     }
@@ -1254,7 +1254,7 @@ pub fn minimise(plan: &Plan, table: &ColdTable, class: &str, kind: &str, budget:
             while start < len {
                 let end = (start + chunk).min(len);
                 let cand = remove_op(&cur, c, start, end);
-                if try_cand(cand, &mut cur, &mut spent) {
+                if try_cand(cand, &mut cur, &mut spent, table) {
                     reduced = true;
                     n = (n - 1).max(2);
                     break;
@@ -1277,22 +1277,60 @@ pub fn minimise(plan: &Plan, table: &ColdTable, class: &str, kind: &str, budget:
     while c < cur.clients.len() && cur.clients.len() > 1 {
         if cur.clients[c].is_empty() {
             let cand = remove_client(&cur, c);
-            if try_cand(cand, &mut cur, &mut spent) {
+            if try_cand(cand, &mut cur, &mut spent, table) {
                 continue;
             }
         }
         c += 1;
     }
+    // shorter query texts (their cold results are computed on demand, each in its own fresh process)
+    let used: BTreeSet<usize> = plan_keys(&cur).into_iter().map(|(_, q)| q).collect();
+    for qi in used {
+        for _ in 0..12 {
+            let mut progressed = false;
+            for cand_q in gen::shrink_query(&cur.queries[qi]).into_iter().take(30) {
+                if spent >= budget {
+                    break;
+                }
+                let mut cand = cur.clone();
+                cand.queries[qi] = cand_q;
+                let mut ok = true;
+                for (ct, q) in plan_keys(&cand) {
+                    let key = (cand.repr, cand.contents[ct].clone(), cand.queries[q].clone());
+                    if !table.contains_key(&key) {
+                        match run_cold(&ColdReq { repr: key.0, content: key.1.clone(), query: key.2.clone() }) {
+                            Ok(r) => {
+                                table.insert(key, r);
+                            }
+                            Err(_) => ok = false,
+                        }
+                    }
+                }
+                if !ok {
+                    continue;
+                }
+                spent += 1;
+                if still_fails(&cand, table, class, kind).is_some() {
+                    cur = cand;
+                    progressed = true;
+                    break;
+                }
+            }
+            if !progressed {
+                break;
+            }
+        }
+    }
     // schedule simplification
     if cur.policy != Policy::RunToCompletion {
         let mut cand = cur.clone();
         cand.policy = Policy::RunToCompletion;
-        try_cand(cand, &mut cur, &mut spent);
+        try_cand(cand, &mut cur, &mut spent, table);
     }
     if cur.thread_per_op {
         let mut cand = cur.clone();
         cand.thread_per_op = false;
-        try_cand(cand, &mut cur, &mut spent);
+        try_cand(cand, &mut cur, &mut spent, table);
     }
     cur
 }
@@ -1547,7 +1585,7 @@ pub fn drive(tier_name: &str, seed: u64, workers: usize) -> i32 {
     } else if let Some((i, plan, m)) = &first_violation {
         violations += n_violating_runs as usize;
         let original_ops = plan.clients.iter().map(|c| c.len()).sum::<usize>();
-        let min = minimise(plan, &table, &m.class, &m.kind, 400);
+        let min = minimise(plan, &mut table, &m.class, &m.kind, 400);
         // re-record with the full log, then confirm that following the recorded schedule reproduces it
         let (rfull, mfull) = match run_plan(&min, true) {
             Ok(r) => {
